@@ -241,7 +241,11 @@ func (snm *shardNotificationsManager) getNotifications() error {
 	}
 
 	var startOffsetExclusive *int64
-	if snm.lastOffsetReceived >= 0 {
+	if snm.initialized {
+		// Resume after the last batch received. Its offset is -1 when the first (dummy) batch was
+		// received on a shard with nothing committed yet: that is still a position to resume from,
+		// not "no position" (the server would answer with a new dummy batch at its current commit
+		// offset and everything committed in between would be skipped).
 		startOffsetExclusive = &snm.lastOffsetReceived
 	}
 
